@@ -144,6 +144,36 @@ class Downloader(ABC):
 
             tasks.difference_update(done_tasks)
 
+        async def download_file_task(source_file: DownloadFile):
+            # Nobody awaits the result of the task, so an exception escaping from
+            # download_file() (e.g. OSError while creating the target file) would
+            # be silently lost and the file would be neither downloaded nor
+            # counted as failed
+            try:
+                await self.download_file(source_file)
+            except Exception as ex:  # pylint: disable=W0718
+                if source_file.ignore_errors:
+                    self._log.info(
+                        f"Unable to download `{source_file.path}`: "
+                        f"{ex.__class__.__qualname__}: {ex}: ignoring"
+                    )
+                    return
+
+                self._missing_sources.update(
+                    itertools.chain.from_iterable(
+                        v.get_all_paths()
+                        for v in source_file.compression_variants.values()
+                    )
+                )
+
+                self._error_count += 1
+                self._error_size += source_file.size
+
+                self._log.error(
+                    f"Unable to download {source_file.path}: "
+                    f"{ex.__class__.__qualname__}: {ex}"
+                )
+
         self._download_start = datetime.now()
         tasks: set[asyncio.Task[Any]] = set()
         progress_task = asyncio.create_task(self.progress_logger())
@@ -173,7 +203,7 @@ class Downloader(ABC):
             if file_unmodified:
                 continue
 
-            tasks.add(asyncio.create_task(self.download_file(source_file)))
+            tasks.add(asyncio.create_task(download_file_task(source_file)))
 
             if len(tasks) >= 128:
                 await remove_finished_tasks(tasks)
